@@ -264,11 +264,13 @@ pub fn finish(ctx: &Ctx, mut outcome: Outcome) -> i32 {
     )
     .expect("cannot write evidence file");
 
-    if !merrs.is_empty() {
-        return 2;
-    }
+    // a violation that was found stays a verdict even if the machinery also complained (a broken
+    // tree can make a scripted context impossible to establish); machinery trouble alone is exit 2
     if unknown > 0 {
         return 1;
+    }
+    if !merrs.is_empty() {
+        return 2;
     }
     println!(
         "OK property={} tier={} wall={:.1}s violations_known={}",
@@ -346,6 +348,20 @@ pub fn scratch_root() -> PathBuf {
 
 pub fn cleanup_scratch() {
     let _ = std::fs::remove_dir_all(scratch_root());
+}
+
+/// Remove scratch trees left behind by runs that were killed (their pid is gone).
+pub fn cleanup_stale_scratch() {
+    if let Ok(rd) = std::fs::read_dir("/dev/shm") {
+        for e in rd.flatten() {
+            let name = e.file_name().to_string_lossy().to_string();
+            if let Some(pid) = name.strip_prefix("rdv.") {
+                if pid.parse::<u32>().is_ok() && !std::path::Path::new(&format!("/proc/{}", pid)).exists() {
+                    let _ = std::fs::remove_dir_all(e.path());
+                }
+            }
+        }
+    }
 }
 
 /// Give the calling thread (and the threads it spawns later, e.g. tokio's blocking pool) a private
